@@ -102,7 +102,13 @@ func c19Behaviour(f func(interface{}) ([]interface{}, error)) string {
 }
 
 func c19Outcome(d c19Desc) (string, func(interface{}) ([]interface{}, error), *jsonpath.Config) {
-	cfg, ok := c19Config(d.Cfg)
+	cfg, _ := c19Config(d.Cfg)
+	return c19OutcomeWith(d, cfg)
+}
+
+// c19OutcomeWith parses the descriptor's path with the given Config object (nil: no Config).
+func c19OutcomeWith(d c19Desc, cfg *jsonpath.Config) (string, func(interface{}) ([]interface{}, error), *jsonpath.Config) {
+	ok := cfg != nil
 	var f func(interface{}) ([]interface{}, error)
 	var err error
 	if ok {
@@ -207,7 +213,18 @@ func drawC19(rt *rapid.T) *Case {
 			continue
 		}
 		// bias towards alternating failing / valid and different configs
-		c.Ops = append(c.Ops, Op{Kind: "parse", A: gen.Uniform(rt, "desc", len(descs))})
+		if i > 0 && gen.Uniform(rt, "twoconfigs", 8) == 0 {
+			// Parse(path, cfgA, cfgB): whatever it means, it must not change cfgA or cfgB
+			c.Ops = append(c.Ops, Op{Kind: "parse2", A: gen.Uniform(rt, "desc", len(descs)), B: 1 + gen.Uniform(rt, "second", c19Configs-1)})
+			continue
+		}
+		// B = 1: a Config object built for this call only; B = 0: the history's own object for that
+		// configuration, reused by every call that names it (as a program would)
+		private := 0
+		if gen.Uniform(rt, "privatecfg", 10) < 3 {
+			private = 1
+		}
+		c.Ops = append(c.Ops, Op{Kind: "parse", A: gen.Uniform(rt, "desc", len(descs)), B: private})
 	}
 	c.Path = fmt.Sprintf("history of %d operations", len(c.Ops))
 	return c
@@ -257,6 +274,16 @@ func checkC19Ops(c *Case, st *Stats, descs []c19Desc) string {
 		mods []int // in-place modifications applied to cfg so far
 	}
 	var live []parsed
+	shared := map[int]*jsonpath.Config{} // one Config object per configuration, reused across the history
+	sharedCfg := func(k int) *jsonpath.Config {
+		if k == 0 {
+			return nil
+		}
+		if shared[k] == nil {
+			shared[k], _ = c19Config(k)
+		}
+		return shared[k]
+	}
 	hist := ""
 	prevFailed, prevCfg := false, -1
 	nontrivial := false
@@ -270,7 +297,15 @@ func checkC19Ops(c *Case, st *Stats, descs []c19Desc) string {
 			if err != nil {
 				return "harness: baseline of descriptor failed: " + err.Error()
 			}
-			got, f, cfg := c19Outcome(d)
+			var got string
+			var f func(interface{}) ([]interface{}, error)
+			var cfg *jsonpath.Config
+			private := op.B == 1
+			if private {
+				got, f, cfg = c19Outcome(d)
+			} else {
+				got, f, cfg = c19OutcomeWith(d, sharedCfg(d.Cfg))
+			}
 			c19Remember(i)
 			st.Eval(1)
 			hist += fmt.Sprintf("Parse(%q, cfg%d) ", d.Path, d.Cfg)
@@ -278,7 +313,9 @@ func checkC19Ops(c *Case, st *Stats, descs []c19Desc) string {
 				return fmt.Sprintf("operation %d: Parse(%q, config %d) after the history [%s] gives\n   %s\nbut as the first call of a fresh process it gives\n   %s", step, d.Path, d.Cfg, hist, got, want)
 			}
 			if f != nil {
-				live = append(live, parsed{desc: i, f: f, cfg: cfg})
+				if private {
+					live = append(live, parsed{desc: i, f: f, cfg: cfg}) // only private Configs are modified later
+				}
 			}
 			failed := f == nil
 			if prevCfg >= 0 && ((prevFailed && d.Cfg != prevCfg) || (prevCfg != 0 && d.Cfg == 0 && strings.Contains(d.Path, "f1"))) {
@@ -290,6 +327,20 @@ func checkC19Ops(c *Case, st *Stats, descs []c19Desc) string {
 				label = label[:k]
 			}
 			st.Class("outcome:" + label)
+		case "parse2":
+			i := op.A % len(descs)
+			d := descs[i]
+			a, b := sharedCfg(d.Cfg), sharedCfg(op.B)
+			if a == nil || b == nil {
+				continue
+			}
+			f, err := jsonpath.Parse(d.Path, *a, *b)
+			st.Eval(1)
+			st.Class("op:parse-with-two-configs")
+			hist += fmt.Sprintf("Parse(%q, cfg%d, cfg%d) ", d.Path, d.Cfg, op.B)
+			if msg := parseOutcome(f, err); msg != "" {
+				return fmt.Sprintf("operation %d: Parse with two Configs: %s", step, msg)
+			}
 		case "modcfg":
 			if len(live) == 0 {
 				continue
